@@ -19,31 +19,39 @@ structure In where
   amount : Nat
   /-- the peers hold heights `1..=chainLen` … -/
   chainLen : Nat
-  /-- … and answer every request with every requested header they hold -/
-  allFull : Bool
+  /-- … and every answer delivers at least one of the requested headers they hold (full or
+      truncated answers; never NOT_FOUND / INVALID / an empty answer) -/
+  progressing : Bool
   /-- step budget of the observation -/
   fuel : Nat
   deriving Repr
 
+/-- `steps` = number of requests that had to be answered before the call returned -/
 inductive Obs where
-  | ok (heights : List Nat)
-  | err
+  | ok (heights : List Nat) (steps : Nat)
+  | err (steps : Nat)
   | panic
   | hang
   deriving DecidableEq, Repr
 
-/-- "the network serves every requested header" (and the observer waits long enough: one answered
-    request per requested header is always sufficient) -/
+/-- "the network serves every requested header": the peers hold all of them and every answer makes
+    progress (and the observer waits long enough: one answered request per requested header is
+    always sufficient) -/
 def served (i : In) : Bool :=
-  i.fromValid && i.sameChain && i.allFull && decide (1 ≤ i.amount) &&
+  i.fromValid && i.sameChain && i.progressing && decide (1 ≤ i.amount) &&
   decide (i.fromHeight + i.amount ≤ i.chainLen) && decide (i.amount ≤ i.fuel)
+
+/-- "promptly": an amount of zero returns without a single answered request; a served call returns
+    within `amount` answered requests -/
+def prompt (i : In) (steps : Nat) : Bool :=
+  (!(i.amount == 0) || steps == 0) && (!served i || decide (steps ≤ i.amount))
 
 def specOK (i : In) : Obs → Bool
   | .panic => false                                         -- never panics, for any amount
   | .hang => !(i.amount == 0) && !served i                  -- prompt for 0; served ⇒ returns
-  | .ok hs =>                                               -- exactly the requested headers,
+  | .ok hs steps =>                                         -- exactly the requested headers,
     hs == List.range' (i.fromHeight + 1) i.amount &&        -- and only if they verify against `from`
-    (i.amount == 0 || i.sameChain)
-  | .err => !served i
+    (i.amount == 0 || i.sameChain) && prompt i steps
+  | .err steps => !served i && prompt i steps
 
 end Lumina.Spec.C27
